@@ -11,10 +11,10 @@ import (
 	"fmt"
 	iofs "io/fs"
 	"os"
-	"syscall"
 	"path/filepath"
 	"strings"
 	"sync"
+	"syscall"
 	"time"
 
 	"github.com/sasha-s/go-deadlock"
@@ -52,12 +52,12 @@ type HistOp struct {
 
 // Incarnation is one life of the lock directory.
 type Incarnation struct {
-	ID       int
-	Owner    string
-	Birth    int64
-	BirthT   time.Time
-	Newest   time.Time // newest heartbeat/dir stamp
-	Removed  bool
+	ID        int
+	Owner     string
+	Birth     int64
+	BirthT    time.Time
+	Newest    time.Time // newest heartbeat/dir stamp
+	Removed   bool
 	RemovedBy string
 	// EndKind tells how the incarnation ended: "owner" (removed by its creator), "foreign-stale" (removed by somebody else
 	// while stale or while its owner was dead), "foreign-owner-releasing", "foreign-judged" (removed live by somebody else).
@@ -89,23 +89,23 @@ type World struct {
 	Rs       *sched.Restamper
 	Start    time.Time
 
-	mu        sync.Mutex
-	Hist      []HistOp
-	Incs      []*Incarnation
-	cur       *Incarnation
-	curCall   map[string]string // actor → API call in progress
-	incAtCall map[string]int    // actor → incarnation id current when its call started
-	rmTries   map[string]int    // actor → removals of the lock directory attempted in its current decision window
-	winStart  map[string]time.Time
-	dirEvents []DirEvent
-	releasing map[string]bool   // actor has begun a release of its own hold
-	holding   map[string]bool   // actor's acquire returned success and it has not begun release
-	dead      map[string]bool   // actor's context was cancelled (heartbeat not running any more)
-	wasHolder map[string]bool
-	Foreign   []ForeignRemove
-	Stamps    int64
-	HbWrites  int64
-	Events    []fsmon.Event
+	mu         sync.Mutex
+	Hist       []HistOp
+	Incs       []*Incarnation
+	cur        *Incarnation
+	curCall    map[string]string // actor → API call in progress
+	incAtCall  map[string]int    // actor → incarnation id current when its call started
+	rmTries    map[string]int    // actor → removals of the lock directory attempted in its current decision window
+	winStart   map[string]time.Time
+	dirEvents  []DirEvent
+	releasing  map[string]bool // actor has begun a release of its own hold
+	holding    map[string]bool // actor's acquire returned success and it has not begun release
+	dead       map[string]bool // actor's context was cancelled (heartbeat not running any more)
+	wasHolder  map[string]bool
+	Foreign    []ForeignRemove
+	Stamps     int64
+	HbWrites   int64
+	Events     []fsmon.Event
 	KeepEvents bool
 
 	// fault injection: actor "process stop" after its j-th backend operation
@@ -113,7 +113,7 @@ type World struct {
 	stopAfter map[string]int
 	stopped   map[string]bool
 	onStop    map[string]func()
-	faults map[string]Fault
+	faults    map[string]Fault
 	// FaultHit reports, per actor, the operation the injected fault landed on.
 	FaultHit map[string]string
 	// StampLog records every stamp applied to the lock directory or a file in it (in application order).
@@ -285,6 +285,7 @@ func (w *World) before(e *fsmon.Event) {
 	}
 	w.mu.Unlock()
 	w.S.Gate(e)
+	w.Rs.Before(e)
 }
 
 func (w *World) maybeStop(e *fsmon.Event) {
@@ -316,6 +317,20 @@ func NewWorld(dir, lockID string, s *sched.Sched) *World {
 	w.Mon.After = w.after
 	w.Start = time.Now()
 	return w
+}
+
+// Names returns the sub-directory and the lock id used by the i-th scenario: most are plain, some hold characters
+// which are special for pattern matching or shells (a lock path is a path like any other).
+func Names(i int) (subdir, id string) {
+	switch i % 7 {
+	case 3:
+		return "build[1]", "lk"
+	case 5:
+		return "out{debug,release}", "l*k?[a]"
+	case 6:
+		return "plain", "lk [x]"
+	}
+	return "", "lk"
 }
 
 // VFS returns a new library filesystem for an actor (own decorator, shared backend and monitor).
@@ -548,12 +563,12 @@ func Sleep(ctx context.Context, d time.Duration) {
 
 // Hold is a hold interval in logical time.
 type Hold struct {
-	Actor      string `json:"actor"`
-	From       int64  `json:"from"`
-	To         int64  `json:"to"` // 0 = open until end
-	FromMs     int64  `json:"from_ms"`
-	ToMs       int64  `json:"to_ms"`
-	AcquireOp  string `json:"acquire_op"`
+	Actor     string `json:"actor"`
+	From      int64  `json:"from"`
+	To        int64  `json:"to"` // 0 = open until end
+	FromMs    int64  `json:"from_ms"`
+	ToMs      int64  `json:"to_ms"`
+	AcquireOp string `json:"acquire_op"`
 }
 
 // Holds derives hold intervals [return of successful acquire, call of release or death).
